@@ -1,5 +1,3 @@
-//go:build verif_c17
-
 package harness
 
 import (
